@@ -245,7 +245,11 @@ Definition bl_efc : list string :=
 
 (* (g) per-element outputs of the position / velocity / actuation / acceleration / solver
    stages: every element is recomputed each step from the state, but the writing kernel's
-   output is a read at field granularity *)
+   output is a read at field granularity.  d.cvel / d.cdof_dot stay listed after the repair
+   of finding C12:constraint:stale-cvel:connect-weld (fwd_position now calls smooth.com_vel
+   before constraint.make_constraint when m.neq > 0): the writer is a kernel launch under
+   an undecided condition, which this analysis cannot see as a full definition; the
+   regression is held by the directed scenes of bin/props/C12.py and C37.py *)
 Definition bl_stage_outputs : list string :=
   ["d.xpos"; "d.xquat"; "d.xmat"; "d.xipos"; "d.ximat"; "d.xanchor"; "d.xaxis";
    "d.geom_xpos"; "d.geom_xmat"; "d.site_xpos"; "d.site_xmat"; "d.cam_xpos"; "d.cam_xmat";
